@@ -425,6 +425,15 @@ class Summaries:
         t = body.term(call_bb)
         cal = inst.callee(call_bb)
         ck = cal.get('key') or cal.get('path') or '?'
+        # error adaptors: the failures of `r.map(f)` / `r.map_err(g)` / `o.ok_or(e)` are the failures of what produced r
+        if re.search(r'^std::result::Result::<.*>::(map|map_err|inspect|inspect_err)$', cal.get('path') or '') and t['args']:
+            pl = op_place(t['args'][0])
+            if pl is not None and not pl['p']:
+                ds = [d for d in body.defs().get(pl['l'], []) if d[0] in ('call', 'stmt')]
+                if len(ds) == 1 and ds[0][0] == 'call':
+                    mapper = body.canon_op(t['args'][1]) if len(t['args']) > 1 else None
+                    # the mapper must be a constructor / fn item (cannot fail): a closure could panic but not return Err here
+                    return self._callee_fs(inst, ds[0][1], stack)
         if cal.get('unresolved') or cal.get('virtual') or cal.get('indirect') or not cal.get('local'):
             return {('opaque', ck)}
         args = tuple(core.strip_var_ids(body.canon_op(a)) for a in t['args'])
